@@ -99,7 +99,10 @@ class ChoiceSource:
         if n == 0:
             return []
         if n > 20:
-            raise ValueError("subset too large")
+            # too many elements for one bitmask draw: a size and a sampling seed
+            k = self.draw(f"{label}.k", max(1, min_size), min(n, max(8, min_size)))
+            rnd = random.Random(self.draw(f"{label}.seed", 0, 99999))
+            return sorted(rnd.sample(range(n), k))
         while True:
             m = self.draw(label, 0, (1 << n) - 1)
             s = [i for i in range(n) if m >> i & 1]
